@@ -200,6 +200,39 @@ def run_parse(case):
             'm': None if m is None else [m.start(), m.end()] + [m.group(i) for i in range(rx.groups + 1)]}
 
 
+def run_fn(case):
+    """library functions, one at a time (stream F)"""
+    f, a = case['fn'], case['args']
+    if f == 'lower':
+        return {'v': a[0].lower()}
+    if f == 'strip':
+        return {'v': a[0].strip()}
+    if f == 'lstrip':
+        return {'v': a[0].lstrip()}
+    if f == 'rstrip':
+        return {'v': a[0].rstrip()}
+    if f == 'replace':
+        return {'v': a[2].replace(a[0], a[1])}
+    import importlib
+    if f == 'escape':
+        return {'v': importlib.import_module('rimu.utils').replaceSpecialChars(a[0])}
+    if f == 'reader':
+        return {'v': importlib.import_module('rimu.io').Reader(a[0]).lines}
+    if f == 'slug':
+        ba = importlib.import_module('rimu.blockattributes')
+        ba.ids = list(a[:-1])
+        return {'v': ba.slugify(a[-1])}
+    db = importlib.import_module('rimu.delimitedblocks')
+    if f == 'qpara':
+        return {'v': db.quoteParagraphContentFilter(a[0])}
+    if f == 'indent':
+        try:
+            return {'v': db.indentedContentFilter(a[0])}
+        except AssertionError:
+            return {'x': 'ExAssert'}
+    return {'error': 'unknown function'}
+
+
 def run_int(case):
     try:
         return {'v': int(case['text'])}
@@ -223,6 +256,8 @@ def main():
                 res = run_parse(case)
             elif k == 'I':
                 res = run_int(case)
+            elif k == 'F':
+                res = run_fn(case)
             elif k == 'M':
                 res = run_cli(case)
             else:
